@@ -9,6 +9,13 @@
 
 enum { C_EVAL = 0, C_NONTRIV };
 typedef boost::adjacency_list<boost::vecS, boost::vecS, boost::undirectedS, boost::no_property, boost::property<boost::edge_weight_t, double>> Graph;
+// the reader is a template over the graph type: the same texts are also read into graphs whose edge_weight property is not
+// the first (or only) edge property, and with a list-based out-edge container (--graph-type 1 / 2)
+typedef boost::adjacency_list<boost::vecS, boost::vecS, boost::undirectedS, boost::no_property,
+        boost::property<boost::edge_index_t, std::size_t, boost::property<boost::edge_weight_t, double>>> GraphIW;
+typedef boost::adjacency_list<boost::listS, boost::vecS, boost::undirectedS, boost::property<boost::vertex_name_t, int>,
+        boost::property<boost::edge_weight_t, double, boost::property<boost::edge_index_t, int>>> GraphLWI;
+static int g_graph_type = 0;
 
 struct ELine { char kind; int u, v; int wi; };            // wi indexes WTXT; 0 = omitted
 static const char *WTXT[] = {"", "1", "15", "2.5", "100", "1.5e1", "0.125", "7", "2.5E-1", "1e+2"};     // incl. exponent notation (what %g / operator<< print)
@@ -36,7 +43,8 @@ static std::string hex(const std::string &s) { static const char *d = "012345678
 static std::string unhex(const std::string &h) { std::string o; for (size_t i = 0; i + 1 < h.size(); i += 2) o += (char) strtol(h.substr(i, 2).c_str(), nullptr, 16); return o; }
 
 // returns "" if the reader's graph equals the model, else class + message
-static std::string check_text(const Text &t, const std::string &txt, std::string &cls, bool verbose = false) {
+template<class Graph>
+static std::string check_text_t(const Text &t, const std::string &txt, std::string &cls, bool verbose = false) {
     bool expect_throw = false;
     for (auto &l : t.lines) if (l.u > t.n || l.v > t.n || l.u < 1 || l.v < 1) expect_throw = true;
     Graph g;
@@ -48,7 +56,7 @@ static std::string check_text(const Text &t, const std::string &txt, std::string
     catch (...) { threw = true; wrong_exc = true; }
     fclose(fp);
     if (verbose) { printf("read: n=%zu m=%zu threw=%d\n", boost::num_vertices(g), boost::num_edges(g), threw);
-        boost::graph_traits<Graph>::edge_iterator ei, ee; for (boost::tie(ei, ee) = boost::edges(g); ei != ee; ++ei) printf("  edge %zu-%zu w=%g\n", boost::source(*ei, g), boost::target(*ei, g), boost::get(boost::edge_weight, g, *ei)); }
+        typename boost::graph_traits<Graph>::edge_iterator ei, ee; for (boost::tie(ei, ee) = boost::edges(g); ei != ee; ++ei) printf("  edge %zu-%zu w=%g\n", boost::source(*ei, g), boost::target(*ei, g), boost::get(boost::edge_weight, g, *ei)); }
     if (expect_throw) {
         if (!threw) { cls = "undeclared-vertex-accepted"; return "an edge names an undeclared vertex but no error was raised"; }
         (void) wrong_exc;      // the property asks for "an error"; the exception type is not part of the contract
@@ -57,7 +65,7 @@ static std::string check_text(const Text &t, const std::string &txt, std::string
     if (threw) { cls = "spurious-error"; return "reader raised an error on a well-formed text"; }
     if ((int) boost::num_vertices(g) != t.n) { cls = "vertex-count"; return "graph has " + std::to_string(boost::num_vertices(g)) + " vertices, problem line declares " + std::to_string(t.n); }
     if (boost::num_edges(g) != t.lines.size()) { cls = "edge-count"; return "graph has " + std::to_string(boost::num_edges(g)) + " edges, text has " + std::to_string(t.lines.size()) + " edge lines"; }
-    boost::graph_traits<Graph>::edge_iterator ei, ee; size_t i = 0;
+    typename boost::graph_traits<Graph>::edge_iterator ei, ee; size_t i = 0;
     for (boost::tie(ei, ee) = boost::edges(g); ei != ee; ++ei, ++i) {
         int a = (int) boost::source(*ei, g), b = (int) boost::target(*ei, g);
         const ELine &l = t.lines[i];
@@ -66,6 +74,12 @@ static std::string check_text(const Text &t, const std::string &txt, std::string
         if (w != WVAL[l.wi]) { cls = "weight"; char buf[128]; snprintf(buf, sizeof buf, "edge #%zu has weight %g, line says %s", i, w, l.wi ? WTXT[l.wi] : "(omitted => 1)"); return buf; }
     }
     return "";
+}
+
+static std::string check_text(const Text &t, const std::string &txt, std::string &cls, bool verbose = false) {
+    if (g_graph_type == 1) return check_text_t<GraphIW>(t, txt, cls, verbose);
+    if (g_graph_type == 2) return check_text_t<GraphLWI>(t, txt, cls, verbose);
+    return check_text_t<Graph>(t, txt, cls, verbose);
 }
 
 // ---- validators on small multigraphs ----
@@ -94,6 +108,7 @@ int main(int argc, char **argv) {
         std::map<std::string, std::string> kv;
         for (auto &p : vr::split(A.get("replay-case"), ';')) { auto eq = p.find('='); if (eq != std::string::npos) kv[p.substr(0, eq)] = p.substr(eq + 1); }
         std::string cls, err;
+        if (kv.count("gt")) g_graph_type = atoi(kv["gt"].c_str());
         if (kv.count("dimacs_hex")) {
             // model is re-derived from the rendered text's generator parameters
             Text t; t.n = atoi(kv["n"].c_str()); t.final_newline = kv["nl"] == "1"; t.decl_m = atoi(kv["dm"].c_str());
@@ -111,6 +126,7 @@ int main(int argc, char **argv) {
         printf("REPLAY-OK\n"); return 0;
     }
     std::string mode = A.get("mode", "reader");
+    g_graph_type = (int) A.geti("graph-type", 0);
     int L = (int) A.geti("lines", 2);
     int nw = (int) A.geti("nweights", 6);           // number of weight spellings used (prefix of WTXT)
     int maxv = (int) A.geti("maxv", 4);             // vertex names minv..maxv (declared n ranges over 0..3; names < 1 or > n are undeclared)
@@ -125,7 +141,7 @@ int main(int argc, char **argv) {
         std::string lines, comments;
         for (auto &l : t.lines) { lines += (lines.empty() ? "" : ",") + std::string(1, l.kind) + "." + std::to_string(l.u) + "." + std::to_string(l.v) + "." + std::to_string(l.wi); }
         for (size_t i = 0; i < t.comments.size(); ++i) comments += (i ? "." : "") + std::to_string(t.comments[i]);
-        return "n=" + std::to_string(t.n) + ";dm=" + std::to_string(t.decl_m) + ";nl=" + (t.final_newline ? "1" : "0") + ";lines=" + lines + ";comments=" + comments + ";dimacs_hex=" + hex(txt);
+        return "n=" + std::to_string(t.n) + ";dm=" + std::to_string(t.decl_m) + ";nl=" + (t.final_newline ? "1" : "0") + ";lines=" + lines + ";comments=" + comments + (g_graph_type ? ";gt=" + std::to_string(g_graph_type) : std::string()) + ";dimacs_hex=" + hex(txt);
     };
     auto text_case = [&](const Text &t) { return text_case2(t, render(t)); };
     if (mode == "reader") {
